@@ -15,6 +15,10 @@ HARD = """This round: at least TWO of your three changes must be of the hard kin
 """
 
 
+SURFACE = """This round: at least TWO of your three changes must sit OFF the beaten track of the code behind the property: a rarely used public entry point or keyword argument (batch calls, optional flags, alternative constructors, variadic forms, `left=`/`mixed=`/`normalize=`-style options), an override in ONE subclass that the other diagram classes do not share, a fallback branch for an unusual argument type (ints vs types, lists vs tuples, callables vs dicts), or an interaction between the anchored code and another module that calls it (parsers, translators, drawing, gradients). The change must still be a violation of the property AS STATED (read its quantifier: every class, option and way of supplying arguments it names is in scope). A change that any straightforward random test of the main entry point would hit at once counts as the easy kind.
+"""
+
+
 def main():
     pid = sys.argv[1].upper()
     low = pid.lower()
@@ -42,6 +46,8 @@ def main():
             "base classes it relies on):\n" + "\n".join(tried) + "\n\n"
     if "--hard" in sys.argv:
         extra += HARD + "\n"
+    if "--surface" in sys.argv:
+        extra += SURFACE + "\n"
     out = out.replace("produce TWO different", "produce THREE different")\
         .replace("k in {1, 2} write", "k in {1, 2, 3} write")\
         .replace("of the two changes", "of the three changes")
